@@ -228,9 +228,49 @@ class MatchMonitor:
             st['rng'] = rng
             self.check_pending_market(c, reg, ts0)
         self.cur = st
+        if kind == 'step' and 'C08' in self.props:
+            self.split_ride_along(c, candle, st)
         c.count('match_calls')
         if s0:
             c.count('match_calls_with_resting')
+
+    def split_ride_along(self, c, candle, st):
+        """the splitting algebra is stated for ANY price inside the range: besides the calls the simulator makes,
+        split this minute's candle at a few more prices of its range (O, H, L, C and two interior points)"""
+        import jesse.services.candle as svc
+        from .prng import H
+        o, cl, h, l = float(candle[1]), float(candle[2]), float(candle[3]), float(candle[4])
+        prices = {o, cl, h, l}
+        if h > l:
+            k = H(self.spec['seed'], 'split', st['symbol'], st['i'])
+            prices.add(l + (h - l) * ((k % 997) / 997.0))
+            prices.add(l + (h - l) * (((k >> 12) % 991) / 991.0))
+        for p in sorted(prices):
+            try:
+                r = svc.split_candle(np.array(candle, dtype=float), p)
+            except Exception as e:
+                self.v(c, 'C08', 'split-algebra', f'C08|split-raised|{type(e).__name__}', {'candle': np.asarray(candle).tolist(), 'price': p})
+                continue
+            c.count('split_ride_along_calls')
+            ok, why = True, None
+            try:
+                e_, l_ = r
+                for part in (e_, l_):
+                    if not (part[4] <= part[1] <= part[3] and part[4] <= part[2] <= part[3]):
+                        ok, why = False, 'invalid-part'
+                if ok and not (e_[1] == o and l_[2] == cl):
+                    ok, why = False, 'open-close-not-kept'
+                if ok and not (max(e_[3], l_[3]) == h and min(e_[4], l_[4]) == l):
+                    ok, why = False, 'high-low-not-kept'
+                if ok and p != o and not (e_[2] == p and l_[1] == p):
+                    ok, why = False, 'do-not-meet-at-price'
+            except Exception as ex:
+                ok, why = False, f'malformed:{type(ex).__name__}'
+            if not ok:
+                self.v(c, 'C08', 'split-algebra', f'C08|split-algebra|{why}|ride-along',
+                       {'candle': np.asarray(candle).tolist(), 'price': p,
+                        'result': [np.asarray(x).tolist() for x in r] if r is not None else None})
+                return
 
     def check_pending_market(self, c, reg, ts):
         for r in reg.recs.values():
